@@ -149,7 +149,7 @@ func (r *Run) collectWrites(fn *Func, depth int, set map[string]bool) {
 					set[fv.Name()+":delete"] = true
 				}
 			}
-			if g, ok := calleeObj(info, s).(*types.Func); ok && !g.Exported() && g.Pkg() == fn.Obj.Pkg() {
+			if g, ok := calleeObj(info, s).(*types.Func); ok && g.Pkg() == fn.Obj.Pkg() {
 				if se, ok := ast.Unparen(s.Fun).(*ast.SelectorExpr); ok {
 					if id, ok := ast.Unparen(se.X).(*ast.Ident); ok && info.Uses[id] == fn.Recv {
 						r.collectWrites(r.P.Funcs[g], depth+1, set)
@@ -311,6 +311,9 @@ func (r *Run) mutEvents(path *Path) []mutEvent {
 			continue
 		}
 		if _, ok := r.mutInfo(f); ok {
+			if _, inTable := mutatorTable[funcName(f)]; !inTable && i+1 < len(path.Events) && path.Events[i+1].Kind == EvEnter && path.Events[i+1].Helper {
+				continue // derived row, but the function was looked into: the primitives it calls follow on the path
+			}
 			out = append(out, mutEvent{Idx: i, Names: []string{funcName(f)}, Direct: true, Callee: f})
 			continue
 		}
